@@ -178,6 +178,21 @@ class Lattice:
             tgt = tgt.rpartition(".")[0]
         return self.db.modules.get(tgt, m)
 
+    def dead_handlers(self, fn: FunctionInfo, try_node: ast.Try) -> list[tuple[ast.ExceptHandler, ast.ExceptHandler]]:
+        """(arm, earlier arm that catches everything it names): Python picks the first matching arm, so the later one never runs."""
+        out = []
+        earlier: list[tuple[ast.ExceptHandler, list[str]]] = []
+        for h in try_node.handlers:
+            names = self.handler_classes(fn, h.type)
+            if names:
+                for e, en in earlier:
+                    if all(any(self.is_sub(n, x) for x in en) for n in names):
+                        out.append((h, e))
+                        break
+            if names:
+                earlier.append((h, names))
+        return out
+
     def handler_classes_in_module(self, m: Module, expr: ast.AST) -> list[str] | None:
         if isinstance(expr, ast.Tuple):
             out: list[str] = []
